@@ -169,11 +169,11 @@ pub struct Tag { pub name: String, pub target: usize, pub annotated: bool }
 pub enum Head { Branch(String), Detached(usize) }
 
 #[derive(Clone, Copy, Debug, PartialEq, Eq, Hash)]
-pub enum WorkTree { Clean, ModifiedTracked, StagedNew, Untracked, IgnoredOnly, ModifiedAndIgnored, DeletedTracked, StagedModification, UntrackedInSubdir, EmptyUntrackedDir, IgnoredDir, StagedDeletion, StagedRename, ModeChange, StagedThenReverted, StagedModWorktreeAsHead, StagedNewThenDeleted, GitlinkMoved, GitlinkMovedStaged, FileNamedLikeTag, FileNamedHead, TouchedTracked, SubmoduleCheckedOutClean, SubmoduleUntrackedInside, SubmoduleModifiedInside, UserIgnoredUntracked, InfoExcludedUntracked }
+pub enum WorkTree { Clean, ModifiedTracked, StagedNew, Untracked, IgnoredOnly, ModifiedAndIgnored, DeletedTracked, StagedModification, UntrackedInSubdir, EmptyUntrackedDir, IgnoredDir, StagedDeletion, StagedRename, ModeChange, StagedThenReverted, StagedModWorktreeAsHead, StagedNewThenDeleted, GitlinkMoved, GitlinkMovedStaged, FileNamedLikeTag, FileNamedHead, TouchedTracked, SubmoduleCheckedOutClean, SubmoduleUntrackedInside, SubmoduleModifiedInside, UserIgnoredUntracked, InfoExcludedUntracked, UnmergedBothModified, UnmergedDeletedByThem, UnmergedBothAdded }
 
 impl WorkTree {
     pub fn dirty(self) -> bool { !matches!(self, WorkTree::Clean | WorkTree::IgnoredOnly | WorkTree::EmptyUntrackedDir | WorkTree::IgnoredDir | WorkTree::StagedThenReverted | WorkTree::TouchedTracked | WorkTree::UserIgnoredUntracked | WorkTree::InfoExcludedUntracked | WorkTree::SubmoduleCheckedOutClean) }
-    pub const ALL: [WorkTree; 27] = [WorkTree::Clean, WorkTree::ModifiedTracked, WorkTree::StagedNew, WorkTree::Untracked, WorkTree::IgnoredOnly, WorkTree::ModifiedAndIgnored, WorkTree::DeletedTracked, WorkTree::StagedModification, WorkTree::UntrackedInSubdir, WorkTree::EmptyUntrackedDir, WorkTree::IgnoredDir, WorkTree::StagedDeletion, WorkTree::StagedRename, WorkTree::ModeChange, WorkTree::StagedThenReverted, WorkTree::StagedModWorktreeAsHead, WorkTree::StagedNewThenDeleted, WorkTree::GitlinkMoved, WorkTree::GitlinkMovedStaged, WorkTree::FileNamedLikeTag, WorkTree::FileNamedHead, WorkTree::TouchedTracked, WorkTree::SubmoduleCheckedOutClean, WorkTree::SubmoduleUntrackedInside, WorkTree::SubmoduleModifiedInside, WorkTree::UserIgnoredUntracked, WorkTree::InfoExcludedUntracked];
+    pub const ALL: [WorkTree; 30] = [WorkTree::Clean, WorkTree::ModifiedTracked, WorkTree::StagedNew, WorkTree::Untracked, WorkTree::IgnoredOnly, WorkTree::ModifiedAndIgnored, WorkTree::DeletedTracked, WorkTree::StagedModification, WorkTree::UntrackedInSubdir, WorkTree::EmptyUntrackedDir, WorkTree::IgnoredDir, WorkTree::StagedDeletion, WorkTree::StagedRename, WorkTree::ModeChange, WorkTree::StagedThenReverted, WorkTree::StagedModWorktreeAsHead, WorkTree::StagedNewThenDeleted, WorkTree::GitlinkMoved, WorkTree::GitlinkMovedStaged, WorkTree::FileNamedLikeTag, WorkTree::FileNamedHead, WorkTree::TouchedTracked, WorkTree::SubmoduleCheckedOutClean, WorkTree::SubmoduleUntrackedInside, WorkTree::SubmoduleModifiedInside, WorkTree::UserIgnoredUntracked, WorkTree::InfoExcludedUntracked, WorkTree::UnmergedBothModified, WorkTree::UnmergedDeletedByThem, WorkTree::UnmergedBothAdded];
 }
 
 /// the commit every repository's gitlink `lib` records: an empty-tree root commit by v <v@v> at 1500000000 +0000, message "inner"
@@ -381,6 +381,22 @@ impl Repo {
             // untracked files that only the user-level ignore file (core.excludesFile) or $GIT_DIR/info/exclude covers
             WorkTree::UserIgnoredUntracked => { std::fs::write(p(".f0.swp.userignored"), "x").unwrap(); std::fs::create_dir_all(p("ide.userignored")).unwrap(); std::fs::write(p("ide.userignored/workspace.xml"), "x").unwrap(); }
             WorkTree::InfoExcludedUntracked => { std::fs::write(p("notes.locallyignored"), "x").unwrap(); }
+            // a merge / cherry-pick / rebase / stash pop stopped on a conflict and the conflicting path is the only change: the index holds
+            // stages 1-3 (UU), 1-2 (UD: deleted by them) or 2-3 of a new path (AA); the work-tree copy carries conflict markers
+            WorkTree::UnmergedBothModified | WorkTree::UnmergedDeletedByThem | WorkTree::UnmergedBothAdded => {
+                let path = if w == WorkTree::UnmergedBothAdded { "bothadded" } else { tracked_file };
+                let blob = |text: &str| git(&self.dir, &["hash-object", "-w", "--stdin"], Some(text.as_bytes())).trim().to_string();
+                let (base, ours, theirs) = (blob("base\n"), blob("ours\n"), blob("theirs\n"));
+                let zero = "0".repeat(if self.sha256 { 64 } else { 40 });
+                let mut info = format!("0 {zero}\t{path}\n");
+                match w {
+                    WorkTree::UnmergedBothModified => { info += &format!("100644 {base} 1\t{path}\n100644 {ours} 2\t{path}\n100644 {theirs} 3\t{path}\n"); }
+                    WorkTree::UnmergedDeletedByThem => { info += &format!("100644 {base} 1\t{path}\n100644 {ours} 2\t{path}\n"); }
+                    _ => { info += &format!("100644 {ours} 2\t{path}\n100644 {theirs} 3\t{path}\n"); }
+                }
+                git(&self.dir, &["update-index", "--index-info"], Some(info.as_bytes()));
+                std::fs::write(p(path), "<<<<<<< ours\nours\n=======\ntheirs\n>>>>>>> theirs\n").unwrap();
+            }
             WorkTree::TouchedTracked => {} // done after the conformance check below (which would refresh the index)
             // untracked files whose names are also revisions: `git <cmd> v1.0.0` / `git <cmd> HEAD` become ambiguous without `--`
             WorkTree::FileNamedLikeTag => { for n in ["v1.0.0", "v1.2.3", "1.5.0rc1", "v2.0.0"] { std::fs::write(p(n), "x").unwrap(); } }
